@@ -429,3 +429,40 @@ func (km *KeystoreManager) ImportKeystore(dbTransaction mwdb.DBTransaction, chec
 	km.managedKeystores[name] = am
 	return am, nil
 }
+
+// VerifC17KeystoreLock (property C17, second sentence, the keystore's address maps): while KeystoreManager.NextAddresses
+// is issuing an address - observed from the chain-oracle callback the real nextAddresses makes for the gap-limit rule,
+// i.e. before the address maps are written - a look-up of the kind the block follower makes for every output
+// (GetManagedAddressByScriptHash, which reads the same maps under the manager lock) does not run: it is parked on
+// the manager lock (rt.Blocked). AddrManager.updateManagedAddress writes the maps with no lock of its own, so this
+// is what keeps an API NewAddress and block processing from touching one Go map at the same time.
+func VerifC17KeystoreLock() {
+	st := c12Setup()
+	rt.Assume(st.n >= st.G && st.allowed()) // the gap-limit rule consults the chain oracle, and allows the request
+	km := &KeystoreManager{
+		managedKeystores: map[string]*AddrManager{st.wid: st.am},
+		currentKeystore:  &currentKeystore{accountName: st.wid},
+		params:           config.ChainParams,
+	}
+	sh := make([]byte, 32)
+	calls, parkedAlways := 0, true
+	check := func(h []byte) (bool, error) {
+		calls++
+		if !rt.Blocked(func() { km.GetManagedAddressByScriptHash(sh) }) {
+			parkedAlways = false
+		}
+		return st.check(h)
+	}
+	var got []*ManagedAddress
+	err := mwdb.Update(st.db, func(tx mwdb.DBTransaction) error {
+		mas, e := km.NextAddresses(tx, check, false, 1, st.G, 0)
+		got = mas
+		return e
+	})
+	rt.Join()
+	rt.Assert(err == nil && len(got) == 1, "address-issued")
+	rt.Assert(calls > 0, "chain-oracle-consulted")
+	rt.Assert(parkedAlways, "follower-look-up-waits-while-an-address-is-being-issued")
+	rt.Assert(!rt.Blocked(func() { km.GetManagedAddressByScriptHash(sh) }), "manager-lock-is-free-afterwards")
+	rt.Reach("end")
+}
